@@ -149,7 +149,7 @@ func init() { childFns["C06"] = c06Child }
 
 func c06Child(run *evid.Run, batch, nb int, j *Journal) {
 	total := pick(run.Tier, 1600, 24000)
-	for i := batch; i < total; i += nb {
+	for i := batch; i < total && !evid.IsSaturated(); i += nb {
 		c06Case(run, i, j)
 	}
 }
